@@ -319,6 +319,7 @@ def run_item(item) -> Acc:
                 gens.append(("huge-int-in-conditions-5000", f"def g(items, config):\n    out = []\n    for it in items:\n        if it > {big_hex}:\n            continue\n        out.append(it)\n    if {big_hex} in config:\n        out.append(config[{big_hex}])\n    print({big_hex})\n    return out\n"))
                 gens.append(("lone-surrogate-escape-1", 'def f(mode):\n    if mode == "\\udc80" or mode == "plain":\n        return 1\n    return pick("\\udc80")\n'))
             elif lang == "ts":
+                gens.append(("parallel-deep-parens-3000", "const x = " + "(" * 3000 + "1" + ")" * 3000 + ";\n"))
                 gens.append(("open-jsdoc-blanks-20000", "/**" + " " * 20000 + "\nexport function f() {\n  return 1;\n}\n"))
                 gens.append(("open-block-comment-stars-20000", "/*" + "*" * 20000 + "\nexport function f() {\n  return 1;\n}\n"))
                 gens.append(("huge-int-hex-5000", f"export function f() {{\n  return {big_hex};\n}}\n"))
@@ -342,11 +343,16 @@ def run_item(item) -> Acc:
             pass
         cmds = ("nesting", "magic-numbers", "improper-logging", "srp", "lbyl", "stringly-typed", "perf", "method-property") if lang != "rs" else ("nesting", "magic-numbers", "unwrap-abuse", "clone-abuse", "blocking-async", "srp")
         for desc, text in gens:
-            root = project({**SIB, f"fault{ext}": text})
+            extra_files, extra_argv = {}, []
+            if desc.startswith("parallel-"):
+                # enough files for the process pool to be used: the workers must cope like the parent
+                extra_files = {f"filler/f{i:02d}.ts": f"export function filler{i}(v: number) {{\n  return v + {i};\n}}\n" for i in range(20)}
+                extra_argv = ["--parallel"]
+            root = project({**SIB, **extra_files, f"fault{ext}": text})
             fam = desc.rsplit("-", 1)[0]
             failed_rules, first_rec, causes = set(), None, set()
             for cmd in cmds:
-                r = obs.cli_subprocess([cmd, "--format", "json", "."], root, timeout=120)
+                r = obs.cli_subprocess([cmd, *extra_argv, "--format", "json", "."], root, timeout=120)
                 acc.case()
                 acc.valid()
                 acc.nt((lang, desc, cmd))
@@ -382,7 +388,7 @@ def run_item(item) -> Acc:
 
 def replay_case(case) -> list[dict]:
     acc = Acc()
-    if case.get("kind") == "size" and any(x in case["generator"] for x in ("huge-int", "lone-surrogate", "open-", "long-digit")):
+    if case.get("kind") == "size" and any(x in case["generator"] for x in ("huge-int", "lone-surrogate", "open-", "long-digit", "parallel-")):
         a = run_item({"kind": "size", "lang": case["lang"], "levels": [], "widths": [], "literals": True})
         return [f for f in a.failures if f["case"].get("generator") == case["generator"] and f["case"].get("cmd") == case["cmd"]]
     if case.get("kind") == "size":
